@@ -55,7 +55,10 @@ def _rebind_table():
     return tab, keep
 
 
-SHADOWS = {"len": S.sym_len, "range": S.sym_range, "isinstance": S.sym_isinstance, "int": S.sym_int}
+from . import bufmodels as B
+
+SHADOWS = {"len": S.sym_len, "range": S.sym_range, "isinstance": S.sym_isinstance, "int": S.sym_int,
+           "bytearray": B.sym_bytearray, "memoryview": B.sym_memoryview}
 
 
 def install(extra_modules=()):
@@ -80,6 +83,9 @@ def install(extra_modules=()):
             if k.startswith("__") and k.endswith("__"):
                 continue
             m = tab.get(id(v))
+            if m is None and type(v) is bytearray:
+                # a module-level scratch buffer: replace it by a model that can hold symbolic bytes
+                m = B.ByteArrayModel(bytes(v))
             if m is not None:
                 g[k] = m
                 rep.append(f"{k}->{getattr(m, '__name__', type(m).__name__)}")
